@@ -86,12 +86,24 @@ func newNamesStore(sqlite bool) (namesStore, func()) {
 	return eb.NewMemoryStore(), func() {}
 }
 
+// keepStore keeps the *Event it is handed (as a write-behind or batching store would) and looks at it again later
+type keepStore struct {
+	namesStore
+	kept []*eb.Event
+}
+
+func (k *keepStore) Append(ctx context.Context, e *eb.Event) (eb.Offset, error) {
+	k.kept = append(k.kept, e)
+	return k.namesStore.Append(ctx, e)
+}
+
 func runShape[T any](k int, v T) string { return runShapeOn(k, v, false) }
 
 func runShapeOn[T any](k int, v T, sqlite bool) string {
 	ctx := context.Background()
-	mem, done := newNamesStore(sqlite)
+	inner, done := newNamesStore(sqlite)
 	defer done()
+	mem := &keepStore{namesStore: inner}
 	bus1 := eb.New(eb.WithStore(mem))
 	eb.Publish(bus1, v)
 	evs, _, _ := mem.Read(ctx, eb.OffsetOldest, 0)
@@ -107,6 +119,9 @@ func runShapeOn[T any](k int, v T, sqlite bool) string {
 	}
 	// typed upcast with T as source
 	bus3 := eb.New(eb.WithStore(mem))
+	// a replay goes over the record BEFORE the upcaster for its type is registered (the registry must not remember
+	// "nothing registered for this name")
+	_ = bus3.ReplayWithUpcast(ctx, eb.OffsetOldest, func(e *eb.StoredEvent) error { return nil })
 	if err := eb.RegisterUpcast(bus3, func(e T) NTarget { return NTarget{1} }); err != nil {
 		return fmt.Sprintf("shape %d !registerfrom %v", k, err)
 	}
@@ -139,7 +154,11 @@ func runShapeOn[T any](k int, v T, sqlite bool) string {
 		upto = e.Type
 		return nil
 	})
-	return fmt.Sprintf("shape %d stored=%s eventtype=%s replayed=%s upfrom=%s upto=%s storedafter=%s replayedafter=%s", k, stored, eb.EventType(v), b01(n == 1), b01(upfrom), upto, storedAfter, b01(n2 == 1))
+	kept := "?"
+	if len(mem.kept) == 1 {
+		kept = mem.kept[0].Type // the name in the envelope the store was handed, looked at again at the very end
+	}
+	return fmt.Sprintf("shape %d stored=%s eventtype=%s replayed=%s upfrom=%s upto=%s storedafter=%s replayedafter=%s kept=%s", k, stored, eb.EventType(v), b01(n == 1), b01(upfrom), upto, storedAfter, b01(n2 == 1), kept)
 }
 
 func namesDomain(lines []string) []string {
